@@ -71,6 +71,9 @@ def generate(rng, tier):
     excluded = None
     if not single and rng.chance(20):
         excluded = mkpkg("excl", "ws/excl")
+    if excluded and rng.chance(70):
+        # a path dependency that lives inside the workspace directory without being a member
+        rng.choice(pk)["deps"].append("excl")
     allp = pk + ext + ([excluded] if excluded else [])
     byname = {p["name"]: p for p in allp}
     # cargo ignores a dependency without a lib target, so every dependency gets one
